@@ -161,6 +161,9 @@ def run_case(case, res):
     method = case["method"]
     add_self = case["add_self"]
     im = IterMethod(method)
+    if case.get("prelude"):
+        # refused calls and add/remove pairs first: they must leave nothing behind that a traversal could meet
+        gen.refused_prelude(t, nodes, rng_for(case.get("pseed", 0), "c06-prelude", case["f"]), case.get("cls") == "typed")
     sobj = t if start == -1 else nodes[start]
     idx_of = {id(n): i for i, n in enumerate(nodes)}
     branch = sh.order(start, "pre", add_self)
@@ -300,6 +303,9 @@ def cases_for_shape(f, *, cls, all_forms, rng):
     if sh.n:
         for m in ("random", "unordered"):
             yield {"cls": cls, "f": fc, "start": -1, "method": m, "add_self": False, "mode": "perm"}
+            yield {"cls": cls, "f": fc, "start": -1, "method": m, "add_self": False, "mode": "perm", "prelude": True, "pseed": sh.n}
+        for m in ITER_METHODS:
+            yield {"cls": cls, "f": fc, "start": -1, "method": m, "add_self": False, "mode": "iter", "prelude": True, "pseed": sh.n + 1}
             yield {"cls": cls, "f": fc, "start": -1, "method": m, "add_self": False, "mode": "unsupported", "entry": "node_iter"}
         for m in ("level_rtl", "zigzag", "zigzag_rtl", "random", "unordered"):
             yield {"cls": cls, "f": fc, "start": -1, "method": m, "add_self": False, "mode": "unsupported", "entry": "visit"}
